@@ -4,7 +4,8 @@
 NAME=$1; shift
 V=$(cd "$(dirname "$0")/.." && pwd)
 WT=/tmp/seedrun.$$.$NAME
-git -C /repo worktree add -q --detach $WT HEAD || exit 2
+BASE=$(python3 -c "import json;print(json.load(open('$V/seeded/$NAME/meta.json')).get('base','HEAD'))")
+git -C /repo worktree add -q --detach $WT $BASE || exit 2
 if ! git -C $WT apply $V/seeded/$NAME/patch.diff; then echo "$NAME: patch does not apply to /repo HEAD"; git -C /repo worktree remove --force $WT; exit 2; fi
 IDS="$@"
 [ -z "$IDS" ] && IDS=$(python3 -c "import json;print(json.load(open('$V/seeded/$NAME/meta.json'))['property'])")
